@@ -347,4 +347,31 @@ PROPERTIES = {
                          "restart_stage_brackets": 100000, "cases_with_global_and_module_stack": 100000},
         },
     },
+    "C13": {
+        "level": "fault_enumeration",
+        "crash_is_violation": True,
+        "rule": ("generated deterministic models (3..5 modules, ring or star, 1..2 start stages, timers that inject tokens which are forwarded with a hop budget, "
+                 "optional tasks with timer steps); for every model a fault-free baseline run gives the occurrence counts, then EVERY single placement "
+                 "(module x {at_sim_start(stage), k-th handle_message before / after its sends, at_sim_end} x {non-catching, catching stereotype}, plus every step "
+                 "of a joined task) and pairs of placements in two modules (all pairs for small models, 60 sampled otherwise) are executed twice with the real "
+                 "code: A panics at the point, B falls silent there. Oracle: A returns (no unwind, no abort: a dead worker counts as violation), the error lists "
+                 "exactly the modules whose reached fault is not caught (PanicError / JoinError paths), every non-faulty module's log in A equals its log in B, the "
+                 "faulty module handles nothing after the fault and is reported inactive at tear-down, the statics (module context, event buffer, globals) are "
+                 "clean after the drop, and a fixed follow-up simulation in the same process reproduces its reference trace. Non-trivial = every executed "
+                 "placement that checked clean; distinct = hash of (model, faults)."),
+        "exhaustive_part": "all single fault placements of every generated model; all pairs for models with <= 60 pairs",
+        "assumptions": ["start stages after a faulty stage and at_sim_end are still invoked on a deactivated module by des; what the dead module does there is not judged",
+                        "a joined-task panic is only combined with the non-catching stereotype (the statement's 'caught' clause is about callbacks)",
+                        "faulty modules forward with send after a self-scheduled delay, not with send_in (whether a delayed send of a module that died "
+                        "meanwhile still leaves its gate is not decided by the statement)"],
+        "stages": [
+            native("placements", "desmon", "c13", tiers=QT, timeout={"quick": 900, "thorough": 5400}),
+        ],
+        "floor": {
+            "quick": {"fault_placements_executed": 250000, "double_fault_placements": 40000, "faults_at_sim_start": 15000, "faults_at_sim_end": 10000,
+                      "faults_in_handle_message_after_sending": 120000, "faults_in_joined_task": 8000, "faults_with_catching_stereotype": 120000,
+                      "followup_simulations": 250000, "models": 900},
+            "thorough": {"fault_placements_executed": 4000000, "double_fault_placements": 600000, "faults_in_joined_task": 120000, "models": 15000},
+        },
+    },
 }
